@@ -346,6 +346,12 @@ impl<'a> Parser<'a> {
                 parameters.push(name.to_owned());
                 self.advance();
                 self.skip_optional(Token::Comma);
+            } else {
+                // Anything else than a name can not be a parameter (and would never be skipped over)
+                return Err(ParseError::SyntaxError(format!(
+                    "onverwachte token. verwachtte een parameternaam, maar kreeg {:?}",
+                    self.current_token
+                )));
             }
         }
         self.skip(Token::CloseParen)?;
